@@ -82,7 +82,12 @@ let do_simp t =
     cmp_path "simplify" m out;
     nontrivial := not (peq out p);
     if not (sublistb out p) then prop "simplify.not-subsequence" "result is not a subsequence of the input";
-    if (not c) && plen p >= 2 && not (keeps_ends out p) then prop "simplify.open-ends-lost" "open path: first/last vertex not kept";
+    if (not c) && plen p >= 2 && not (keeps_ends out p) then begin
+      if eps_sqr_ge_max eps then
+        prop "simplify.open-ends-lost.eps-sqr-ge-max-dbl"
+          "open path, epsilon^2 >= DBL_MAX (the pseudo distance that protects the ends): first/last vertex not kept"
+      else prop "simplify.open-ends-lost" "open path: first/last vertex not kept"
+    end;
     if not (simplify_fixed_f out eps c) then begin
       if plen p < 4 then prop (if c then "simplify.short-closed-path-not-simplified" else "simplify.short-open-path-not-simplified")
           "fewer than 4 points: returned unchanged although a vertex is within epsilon of the line through its neighbours"
@@ -107,14 +112,15 @@ let do_rdp t =
      | Ok s when peq s out -> ()
      | _ -> corr "RamerDouglasPeucker output differs from the vertices flagged by a direct RDP call");
     nontrivial := not (peq out p);
-    (* the one failure mode of the unchanged code: the un-flagging loop of RDP fires iff first == last (top-level call) *)
+    (* classifier for the defect of the unrepaired code: the end-shrinking loop of RDP fires iff first == last (top-level call) *)
     let first_eq_last = (match p with a :: _ :: _ -> plen p >= 5 && pt_eqb a (last_of p) | _ -> false) in
     if not (sublistb out p) then prop "rdp.not-subsequence" "result is not a subsequence of the input";
-    let nfl = List.length fl in
-    if plen p >= 2 && (nfl <> plen p || not (List.hd fl) || not (List.nth fl (nfl - 1)) || not (keeps_ends out p)) then
+    (* "keeps the end points": judged on the returned path (point values), as the property states it; which copy of a
+       repeated point was flagged is a matter of the model comparison above, not of the property *)
+    if not (keeps_ends out p) then
       prop (if first_eq_last then "rdp.first-eq-last-drops-end" else "rdp.ends-lost")
-        (if first_eq_last then "the path ends where it starts: RDP un-flags the last vertex (and every trailing vertex equal to the first) and keeps no new end"
-         else "first/last vertex not kept");
+        (if first_eq_last then "the path ends where it starts: the result does not end at the input's last point (RDP un-flags the last vertex and keeps no new end)"
+         else "the result does not start/end at the input's first/last point");
     (match rdp_bad_f p fl eps with
      | [] -> ()
      | bad -> prop (if first_eq_last then "rdp.first-eq-last-drops-end" else "rdp.bound")
